@@ -1,6 +1,7 @@
 import Gmars.Driver.ApiRun
 import Gmars.Driver.TextRun
 import Gmars.Driver.TextRunP
+import Gmars.Driver.DebugRun
 import Gmars.Driver.HookRun
 import Gmars.Driver.AsmRun
 import Gmars.Driver.CliRun
@@ -38,10 +39,11 @@ partial def loop (h : IO.FS.Stream) (out : IO.FS.Stream) (g : Global) : IO Globa
         | none => g.dumps
       loop h out { g with ctx := none, dumps, nCases := g.nCases + 1, nOps := g.nOps + st.nOps,
                           nNontrivial := g.nNontrivial + (if st.nontrivial then 1 else 0) }
-  else if line.startsWith "L " || line.startsWith "K " || line.startsWith "KP " || line.startsWith "H " || line.startsWith "X " || line.startsWith "Z " || line.startsWith "Y " || line.startsWith "Q " then
+  else if line.startsWith "L " || line.startsWith "K " || line.startsWith "KP " || line.startsWith "KD " || line.startsWith "H " || line.startsWith "X " || line.startsWith "Z " || line.startsWith "Y " || line.startsWith "Q " then
     let (outs, upd) := if line.startsWith "L " then runLoadLine line
       else if line.startsWith "K " then runListingLine line
       else if line.startsWith "KP " then runListingPLine line
+      else if line.startsWith "KD " then runDebugLine line
       else if line.startsWith "X " then runAsmLine (some modelAsmStr) line
       else if line.startsWith "Z " then runCliLine line
       else if line.startsWith "Y " then runPairLine line
